@@ -178,3 +178,48 @@ def gen_patch_dict():
 
 
 GENERATORS['nbdime.patching.patch_dict'] = gen_patch_dict
+
+
+def gen_diff_dicts():
+    "pairs of dicts over keys {a,b,c}; values cross atomic / list / dict / string kinds; default DiffConfig"
+    from nbdime.diffing.config import DiffConfig
+    vals = [0, 1, 'x', 'x\ny\n', [1], [1, 2], {'k': 0}, {'k': 1}, None]
+    keysets = [(), ('a',), ('b',), ('a', 'b'), ('b', 'a'), ('a', 'c')]
+    import random
+    rnd = random.Random(7)
+    for ka in keysets:
+        for kb in keysets:
+            for _ in range(40):
+                a = {k: copy.deepcopy(rnd.choice(vals)) for k in ka}
+                b = {k: copy.deepcopy(rnd.choice(vals)) for k in kb}
+                yield [a, b, '', DiffConfig()]
+
+
+def gen_map_validated():
+    from nbdime.diff_format import MappingDiffBuilder, op_add, op_remove, op_replace
+    for keys in ((), ('a',), ('b', 'a'), ('c', 'a', 'b'), ('zz', 'b')):
+        b = MappingDiffBuilder()
+        for n, k in enumerate(keys):
+            b._diff[k] = (op_add(k, n), op_remove(k), op_replace(k, [n]))[n % 3]
+        yield [b]
+    # not keyed: must be skipped by the precondition
+    b = MappingDiffBuilder()
+    b._diff['a'] = op_remove('b')
+    yield [b]
+
+
+def gen_map_append():
+    from nbdime.diff_format import MappingDiffBuilder, op_add, op_remove, op_replace, op_patch
+    for present in ((), ('a',), ('a', 'b')):
+        for e in (op_add('c', 1), op_remove('b'), op_replace('a', 2), op_patch('zz', [op_add('k', 1)])):
+            b = MappingDiffBuilder()
+            for k in present:
+                b._diff[k] = op_remove(k)
+            yield [b, copy.deepcopy(e)]
+
+
+GENERATORS.update({
+    'nbdime.diffing.generic.diff_dicts': gen_diff_dicts,
+    'nbdime.diff_format.MappingDiffBuilder.validated': gen_map_validated,
+    'nbdime.diff_format.MappingDiffBuilder.append': gen_map_append,
+})
